@@ -24,6 +24,9 @@ class StackFrame:
 class LoopFrame(StackFrame):
     def __init__(self, parent):
         super().__init__(parent)
+        # A loop is not a new scope: parameters of the enclosing routine stay
+        # parameters inside the loop body.
+        self.params = parent.params
         self._loop_var = {}
 
     def get_loop_var(self, index):
